@@ -1019,20 +1019,26 @@ Example nonvacuous_limit :
   /\ no_other c s0 [[1]; [3]; [1]; [3]; [1]; [3]; [1]] = true.
 Proof. vm_compute. repeat split; reflexivity. Qed.
 
-(* ---------- latent defect: reset with a custom Generator whose agents do not start at (0,0) ---------- *)
+(* ---------- reset with a custom Generator whose agents do not start at (0,0) ---------- *)
 Lemma init_is_reset_of c maze :
   init c maze = reset_of c (gset (map (map adapt) maze) 0 0 CLEAN) (repeat (0, 0) (Z.to_nat (nag c))).
 Proof. reflexivity. Qed.
 
-(* a physically consistent generator state (agent on a CLEAN cell at (1,1), a wall above it) for which the mask
-   produced by reset is NOT the table of legal moves: it is the mask of cell (0,0) *)
-Theorem reset_custom_generator_refuted :
-  exists c g ls, Physical_b c (fst (reset_of c g ls)) = true /\ mask_exact_b c (fst (reset_of c g ls)) = false
-    /\ amask (fst (reset_of c g ls)) = [[false; false; true; false]]
-    /\ map (legal_b (rows c) (cols c) g (1, 1)) (zrange 4) = [false; true; true; true].
+(* whatever physically consistent state a Generator returns, the mask produced by reset is the table of legal moves at
+   the generator's own agent locations (this was FALSE before the fix: the mask was that of cell (0,0)) *)
+Theorem reset_custom_generator_Inv c g ls :
+  Physical c (mkS g ls [] 0) -> Inv c (fst (reset_of c g ls)).
 Proof.
-  exists (mkC 3 3 1 9 2), [[0; 2; 0]; [0; 1; 0]; [0; 0; 0]], [(1, 1)]. vm_compute. repeat split; reflexivity.
+  intros P. unfold reset_of. cbn [fst]. unfold Inv. cbn [grid locs amask cnt]. repeat split; try apply P; lia.
 Qed.
+Theorem reset_custom_generator_mask_exact c g ls :
+  Physical c (mkS g ls [] 0) -> mask_exact_b c (fst (reset_of c g ls)) = true.
+Proof. intro P. apply C04_mask_table. apply reset_custom_generator_Inv. exact P. Qed.
+Example reset_custom_generator_example :
+  let c := mkC 3 3 1 9 2 in let g := [[0; 2; 0]; [0; 1; 0]; [0; 0; 0]] in
+  Physical_b c (fst (reset_of c g [(1, 1)])) = true
+  /\ amask (fst (reset_of c g [(1, 1)])) = [[false; true; true; true]].
+Proof. vm_compute. split; reflexivity. Qed.
 
 (* ---------- closure: every state reachable from a reset by joint actions of the right length satisfies Inv ---------- *)
 Inductive reachable (c : cfg) : state -> Prop :=
